@@ -752,7 +752,7 @@ pub fn run(run: &mut Run) {
         version text and IS_MSO frames with any TextStart over codepage-switching text; (5) hand-built MSO with TextStart at every character \
         position of multi-codepage messages around the 128-byte limit; (6) sequences of 1..7 packets, refused ones among them, encoded by \
         one codec instance (as a connection does): every result must equal what a fresh codec gives for that packet; (7) Mode::encode_length for every length 0..=70 000 and \
-        around every integer width: Ok only with the exact size byte, otherwise refused. Non-trivial = every case (each one \
+        around every integer width: Ok only with the exact size byte, otherwise refused; (8) element counts whose serialisation is 2^8, 2^10, 2^16 or 2^17 bytes and up to 1 KiB more, and round counts up to 70 000 (must be refused, never emitted with a wrapped size byte); (9) IS_VER built by hand around any finite version; (10) one text through several fields in a row, each frame compared with a fresh thread's. Non-trivial = every case (each one \
         exercises the encoder on a distinct packet)."
         .into();
     run.assumptions = vec!["element size / header length / count offset of the counted kinds are taken from the specification transcription".into()];
